@@ -62,6 +62,8 @@ type pop struct {
 	Name  string
 	K, V  int
 	Pause int // microseconds to sleep before the call (0: none): steers the schedule only
+	N     int // batch operations (PutAll): the number of elements handed over, starting at key K (cyclically through the pool)
+	Dir   string // Sort: the comparator ("asc" | "desc" on the natural order of the keys)
 }
 
 // cobj is one real collection behind the point-operation face.
@@ -81,6 +83,9 @@ type cobj struct {
 	Cap    int                    // queues: the capacity (0 = unbounded)
 	Puts   []string               // queues: the plain enqueue operations
 	Get    string                 // queues: the blocking dequeue
+	Batch  []string               // batch operations (PutAll): in the race-detector programs only (a batch is not ONE atomic call)
+	Raw    interface{}            // the real collection (its lock is read from outside by the gated histories)
+	Gate   *gate                  // where the user-supplied functions of the calls of this object report to (gate.go)
 }
 
 func (o *cobj) has(n string) bool {
@@ -102,7 +107,8 @@ var dictPointOps = []string{"Put", "PutFirst", "PutLast", "Add", "AddFirst", "Ad
 var mutators = map[string]bool{"Put": true, "PutFirst": true, "PutLast": true, "Add": true, "AddFirst": true, "AddLast": true,
 	"AddNoOver": true, "AddIfExist": true, "Unipoint": true, "Remove": true, "RemoveFirst": true, "RemoveLast": true, "Clear": true,
 	"GetLRU": true, "LAddFirst": true, "LAddLast": true, "LAdd": true, "QPut": true, "QPutForce": true, "QGetNoWait": true, "QGetTimeout": true, "QGet": true,
-	"DPut1": true, "DPut2": true, "DPutForce1": true, "DPutForce2": true, "DGetNoWait": true, "DGetTimeout": true, "DGet": true}
+	"DPut1": true, "DPut2": true, "DPutForce1": true, "DPutForce2": true, "DGetNoWait": true, "DGetTimeout": true, "DGet": true,
+	"PutAll": true, "Sort": true}
 var sizeOps = map[string]bool{"Size": true, "IsEmpty": true, "Size1": true, "Size2": true}
 
 // the blocking dequeues: only in programs built so that every such call is served (shape "block")
@@ -151,10 +157,14 @@ func sources() []source {
 					}
 				}
 				co.Names = append(co.Names, "Size")
+				co.Raw = o.Raw
 				sz := o.Raw.(sizer)
 				co.Call = func(op pop) Ev {
 					if op.Name == "Size" {
 						return Ev{"n": sz.Size()}
+					}
+					if op.Name == "Sort" { // with a comparator of this harness (gate.go)
+						return sortRaw(co, op.Dir)
 					}
 					return o.Ops[op.Name](hmapx.Op{Name: op.Name, K: op.K, V: op.V})
 				}
@@ -197,15 +207,29 @@ func sources() []source {
 					}
 				}
 				co.Names = append(co.Names, "Size")
+				if o.Has("PutAll") {
+					co.Batch = []string{"PutAll"}
+				}
+				if o.Raw != nil {
+					co.Raw = o.Raw()
+				}
 				co.Call = func(op pop) Ev {
 					if op.Name == "Size" {
 						return Ev{"n": o.Size()}
 					}
-					return o.Ops[op.Name](c12.Op{Name: op.Name, K: op.K, V: op.V})
+					if op.Name == "Sort" { // with a comparator of this harness (gate.go)
+						return sortRaw(co, op.Dir)
+					}
+					x := c12.Op{Name: op.Name, K: op.K, V: op.V}
+					for j := 0; j < op.N; j++ {
+						x.Ks = append(x.Ks, 1+(op.K-1+j)%o.N)
+						x.Vs = append(x.Vs, op.V)
+					}
+					return o.Ops[op.Name](x)
 				}
 				co.Bind = func(op pop) func() Ev {
 					f, x := o.Ops[op.Name], c12.Op{Name: op.Name, K: op.K, V: op.V}
-					if op.Name == "Size" || f == nil {
+					if op.Name == "Size" || f == nil || op.N > 0 || op.Dir != "" {
 						return nil
 					}
 					return func() Ev { return f(x) }
@@ -296,7 +320,7 @@ func newQueueObj(capacity int) *cobj {
 	co := &cobj{Type: "RequestQueue", Ctor: fmt.Sprintf("cap=%d", capacity), Unique: true, Lin: true, Cap: capacity,
 		Hdr:   Ev{"plain": false, "set": true, "none": []int{}, "rej": false, "ek": 0, "max": capacity},
 		Names: []string{"QPut", "QPutForce", "QGetNoWait", "QGetTimeout", "QGet", "Clear", "Size"},
-		Puts:  []string{"QPut"}, Get: "QGet"}
+		Puts:  []string{"QPut"}, Get: "QGet", Raw: q}
 	co.Call = func(op pop) Ev {
 		switch op.Name {
 		case "QPut":
@@ -509,8 +533,23 @@ func genProgram(r *rand.Rand, co *cobj) *program {
 			p.Threads = append(p.Threads, ops)
 		}
 	}
+	// race-detector programs: ONE goroutine also issues batch calls (PutAll), small ones and ones longer than the
+	// default table has buckets (what a batch method does "once for the whole batch" depends on its length)
+	if raceMode && len(co.Batch) > 0 && len(p.Threads) > 0 && r.Intn(3) > 0 {
+		t := r.Intn(len(p.Threads))
+		for i, n := 0, 1+r.Intn(2); i < n && len(p.Threads[t]) > 0; i++ {
+			b := pop{Name: co.Batch[r.Intn(len(co.Batch))], K: 1 + r.Intn(co.NK), V: 1 + r.Intn(3), N: 3}
+			if r.Intn(3) > 0 {
+				b.N = 110 + r.Intn(90)
+			}
+			p.Threads[t][r.Intn(len(p.Threads[t]))] = b
+		}
+	}
 	return p
 }
+
+// raceMode: the programs are generated for the race-detector build (batch calls among them)
+var raceMode bool
 
 // duel: a populated instance; the goroutines issue mostly the same one or two
 // operations, for the hash collections mostly on one key.
